@@ -1,23 +1,37 @@
 """C04 — Frequency-shift covariance and conjugate symmetry of two-sided spectra."""
-import json, cmath
+import json, cmath, os
 import numpy as np
 import vlib
 from vlib import cz, czl, tolq, fcl
 from props import _estimators as E
+from props import _pipelines as P
 
-LEVEL_TEXT = ("Coq theorems (abstract *-field + DFT character, every length, shift and bin): the DFT of modulated data is the DFT "
-              "shifted by m bins, of conjugated data the mirrored conjugate, of reversed data the mirrored DFT up to a unimodular factor; "
-              "autocorrelation lags of modulated data rotate by tw(-mk), the autocorrelation is invariant under conjugated time reversal, "
-              "LEVINSON on modulated lags rotates coefficient j by tw(-m(j+1)) and keeps the error power.  The DFT specification is tied to "
-              "numpy.fft by a binary64 correspondence, the correlation/Levinson models by exact runs at modulated inputs (n=4); every "
-              "estimator class is covered by a search comparing rotated / mirrored / folded / time-reversed estimates.")
+LEVEL_TEXT = ("Coq theorems (abstract *-field + DFT character; every N, NFFT >= 1, shift m in Z, bin): modulating sample j by exp(2 pi i m j/NFFT) "
+              "rolls by m bins, conjugation mirrors, conj(x[::-1]) leaves unchanged -- proved for numpy.fft.fft's model, speriodogram (any window; "
+              "real / real symmetric window for mirror / reversal), CORRELOGRAMPSD (both back ends, every norm, lag, overlapping layouts, error "
+              "branches), CORRELATION, LEVINSON, aryule, arburg (reflection coefficient j times phi(j+1), rho unchanged, same stop / raise decisions; "
+              "ef/eb swap under reversal), arma2psd (coefficient j times tw(-m(j+1)) => rolled; conjugated => mirrored), minvar (aliased grids included), "
+              "MultiTapering.__call__ with unity / eigen / adapt weights (adaptive iteration in lock step), and the composed class spectra of pyule, pburg, "
+              "pminvar.  Class level over the pipeline table GENERATED from the source on this run: every class except pmusic/pev stores a scalar multiple "
+              "of the estimator's array, so roll / mirror commute with the store and scale() calls; the AR/MA/ARMA, minvar and multitaper classes store for "
+              "real data 2 x the first onesided_len(NFFT) bins of the complex store (NFFT even and odd, any reachable state).  Real data: CORRELATION, LEVINSON, "
+              "aryule, arburg commute with any *-homomorphism R -> F (real path = complex path) and return real parameters.  The DFT specification is tied to "
+              "numpy.fft by a binary64 correspondence, CORRELATION / LEVINSON by exact runs at modulated inputs; every class is also covered by a search "
+              "comparing rotated / mirrored / folded / time-reversed estimates.")
 TRUSTED = ["Coq 8.16.1 kernel + vm_compute", "numpy.fft.fft is modelled by the DFT specification Theory/Dft.v (validated by the binary64 correspondence of this run)",
-           "hand-written models Corr/Levinson (tie = exact correspondence at modulated inputs)", "Python harness"]
-UNPROVED = ["class-level rotation and mirror for each estimator (compositions with arma2psd / pipelines), one-sided = 2 x half, Burg / modified "
-            "covariance / multitaper / minimum-variance time reversal: search only at this commit"]
-ASSUMPTIONS = ["exact arithmetic in the theorems"]
+           "hand-written models Corr/Levinson (tie = exact correspondence at modulated inputs here), Periodogram/Arma2psd/Yule/Burg/Minvar/Mtm (tie = the "
+           "correspondence checks of C01/C08/C09/C13/C16/C19)", "fail-closed AST translator tools/props/_pipelines.py + interpreter coq/Model/PipelineLib.v "
+           "(validated against real objects by C08)", "dpss tapers are an oracle (real, symmetric/antisymmetric: hypotheses of the multitaper mirror / reversal theorems)",
+           "Python harness"]
+UNPROVED = ["parameter estimators arcovar / modcovar / arma_estimate / ma under modulation, conjugation (and modcovar under time reversal): pcovar, pmodcovar, "
+            "parma, pma class spectra follow from arma2psd_rotation / arma2psd_mirror only once these are known -- search only",
+            "pmusic / pev (eigen), pdaniell, real-data correlogram fold (twosided_2_onesided): search only",
+            "conjugation / real-path theorems assume the divisors of the executed stages are nonzero (N, N-k, mean power, error powers, Burg denominators)"]
+ASSUMPTIONS = ["exact arithmetic in the theorems", "detrend off for the periodogram shift clause (subtracting the mean is not modulation covariant; the class default is None)"]
 RULE = ("complex data x shift m (any integer incl. negative and > NFFT) x every class x NFFT even/odd; conjugation; real data declared complex; "
         "conj-time-reversal for the invariant estimators; non-trivial = non-constant data, m not a multiple of NFFT")
+GEN_NAMES = ['table_complete_c04', 'class_rotation', 'class_mirror', 'onesided_is_twice_half', 'onesided_length', 'routing_yule', 'routing_burg',
+             'routing_minvar_mtm_fourier']
 
 PRE_DFT = """From Coq Require Import PrimFloat.
 Require Import Spectrum.Theory.Ops Spectrum.Theory.Vec Spectrum.Theory.Dft Spectrum.Instances.FloatC Spectrum.Instances.FloatTw Spectrum.Instances.QcC.
@@ -103,6 +117,19 @@ def run(ctx):
     from spectrum import CORRELATION, LEVINSON
     rng = ctx.rng
     ctx.check_theorems('Properties/C04.v')
+
+    # ---------------- class-level theorems over the pipeline table generated from the snapshot source
+    src = os.path.join(vlib.SNAP, 'src', 'spectrum')
+    try:
+        table_v = P.gallina(P.extract(src))
+    except P.Fail as e:
+        table_v = None
+        for nm_ in GEN_NAMES:
+            ctx.obligations.append((nm_, False, []))
+        ctx.broken.append({'theorem': 'translator:pipelines (source outside the recognised shapes)', 'where': src, 'log': str(e)})
+    if table_v is not None:
+        thm = open(os.path.join(os.path.dirname(os.path.abspath(__file__)), '_c04_theorems.v.in')).read()
+        ctx.check_generated('C04_pipelines', table_v + thm, GEN_NAMES)
 
     # ---------------- the DFT specification against numpy.fft.fft (binary64, inside Coq)
     cases = []; meta = []
